@@ -3,6 +3,8 @@ EXTENDS SymExport
 ASSUME RebuildFlatten
 ASSUME ImportNeverDangling
 ASSUME Emit
+ASSUME WideRebuildFlatten
+ASSUME IF ViaFree THEN TRUE ELSE EmitWide
 ASSUME CompletedWhateverTheRows
 ASSUME IF ViaFree THEN TRUE ELSE EmitCompositions
 ASSUME IF ViaFree THEN TRUE ELSE EmitTables
